@@ -213,6 +213,20 @@ func TestRandomKVPlain(t *testing.T) {
 	})
 }
 
+// the ground truth itself: the Go os package behind a thin adapter (a record the specification does not explain here is a
+// specification error, never a finding)
+func rawOS(tb testing.TB) hackpadfs.FS {
+	fs, cleanup, err := fsad.OSRefFS()
+	if err != nil {
+		tb.Fatal(err)
+	}
+	tb.Cleanup(cleanup)
+	return fs
+}
+
+// (the conformance scenarios are not run on it: they expect hackpadfs' refusal of names that are no paths, which the os package does not know)
+func TestRandomRawOS(t *testing.T) { randomHistories(t, "rawos", rawOS) }
+
 func TestRandomOS(t *testing.T) {
 	randomHistories(t, "os", func(tb testing.TB) hackpadfs.FS {
 		sub, err := hpos.NewFS().Sub(strings.TrimPrefix(tb.TempDir(), "/"))
